@@ -114,6 +114,15 @@ class Stage:
         shutil.rmtree(self.path, ignore_errors=True)
 
 
+def build_inplace(repo_dir):
+    """compile both extensions into <repo_dir>/psutil (for scratch worktrees)"""
+    st = Stage(repo_dir, False)
+    st._build()
+
+
 if __name__ == "__main__":
-    s = Stage.create(sanitize="--san" in sys.argv)
-    print(s.path)
+    if len(sys.argv) > 2 and sys.argv[1] == "--build-inplace":
+        build_inplace(sys.argv[2])
+    else:
+        s = Stage.create(sanitize="--san" in sys.argv)
+        print(s.path)
